@@ -2780,10 +2780,15 @@ class Cond(Generic[X, R], GFI[X, R]):
         **kwargs,
     ) -> tuple[Trace[X, R], Weight, X | None]:
         (check, *rest_args) = args
-        new_tr, w, discard = self.callee.regenerate(tr.trs[0], s, *rest_args, **kwargs)
-        new_tr_, w_, discard_ = self.callee_.regenerate(
-            tr.trs[1], s, *rest_args, **kwargs
-        )
+        # Unselected choices keep the value that was visible under the old condition,
+        # whichever branch the new condition selects: bring both branch traces to the
+        # visible choices first (a no-op for the branch that was visible).
+        (_, *old_rest_args), old_kwargs = tr.get_args()
+        visible = tr.get_choices()
+        tr0, _, _ = self.callee.update(tr.trs[0], visible, *old_rest_args, **old_kwargs)
+        tr1, _, _ = self.callee_.update(tr.trs[1], visible, *old_rest_args, **old_kwargs)
+        new_tr, w, discard = self.callee.regenerate(tr0, s, *rest_args, **kwargs)
+        new_tr_, w_, discard_ = self.callee_.regenerate(tr1, s, *rest_args, **kwargs)
         if discard is None:
             merged_discard = discard_
         elif discard_ is None:
@@ -2793,9 +2798,7 @@ class Cond(Generic[X, R], GFI[X, R]):
             merged_discard, _ = self.callee.merge(discard, discard_, tr.check)
         # Each branch weight is relative to that branch's own old score; re-base it on the score
         # that was visible under the old condition (a no-op whenever check == tr.check).
-        old_score_of_new_branch = jnp.where(
-            check, tr.trs[0].get_score(), tr.trs[1].get_score()
-        )
+        old_score_of_new_branch = jnp.where(check, tr0.get_score(), tr1.get_score())
         return (
             CondTr(self, check, [new_tr, new_tr_]),
             jnp.where(check, w, w_) + tr.get_score() - old_score_of_new_branch,
